@@ -1,8 +1,8 @@
 import S2S.Proofs.RegistryChan
 /-!
-C08: the local shard table (`localShards`, identity = registration time) — under `StampsOK` (distinct
-stamps) and `UnregOK` (window (ii) excluded) an entry always belongs to a sender between `addLocalShard`
-and its `UnregisterShard`, and `UnregisterShard` deletes only its own entry.
+C08: the local shard table (`localShards`, identity = registration time) — an entry always belongs to a sender
+between `addLocalShard` and its `UnregisterShard` (every interleaving), and under `StampsOK` (distinct stamps)
+registrations of one shard can be told apart, so `UnregisterShard` deletes only its own entry.
 -/
 namespace S2S.Registry
 
@@ -17,10 +17,6 @@ def InvLocal (σ : State) : Prop :=
 def InvStamp (σ : State) : Prop :=
   ∀ i j, i < σ.next → j < σ.next → i ≠ j → (σ.inc i).shard = (σ.inc j).shard →
     (σ.inc i).spc.stamped = true → (σ.inc j).spc.stamped = true → (σ.inc i).stamp ≠ (σ.inc j).stamp
-
-/-- between the two deletes of `UnregisterShard` the shard has no entry -/
-def InvUnreg (σ : State) : Prop :=
-  ∀ i, (σ.inc i).spc = .unreg → aget σ.localShards (σ.inc i).shard = none
 
 set_option maxHeartbeats 2000000 in
 theorem invLocal_step {c σ a σ'} (h : step c σ a = some σ') (B : InvBound σ) (I : InvLocal σ) : InvLocal σ' := by
@@ -54,10 +50,12 @@ theorem invLocal_step {c σ a σ'} (h : step c σ a = some σ') (B : InvBound σ
       refine ⟨h1, ?_, ?_, ?_⟩ <;> crush
   | sUnregAgain i =>
     step_inv h
-    intro c' t st ht
-    simp [aget_adel] at ht ⊢
-    obtain ⟨h1, h2, h3, h4⟩ := I c' t st ht.2
-    refine ⟨h1, ?_, ?_, ?_⟩ <;> crush
+    all_goals (intro c' t st ht)
+    all_goals (simp [aget_adel] at ht ⊢)
+    · obtain ⟨h1, h2, h3, h4⟩ := I c' t st ht.2
+      refine ⟨h1, ?_, ?_, ?_⟩ <;> crush
+    · obtain ⟨h1, h2, h3, h4⟩ := I c' t st ht
+      refine ⟨h1, ?_, ?_, ?_⟩ <;> crush
   | _ =>
     step_inv h
     all_goals (intro c' t st ht)
@@ -101,42 +99,5 @@ theorem invStamp_step {c σ a σ'} (h : step c σ a = some σ') (H : StampsOK σ
     all_goals (intro i j hi hj hij hs h1 h2)
     all_goals (try simp at hi hj hs h1 h2 ⊢)
     all_goals (first | exact I i j hi hj hij hs h1 h2 | (have hI := I i j hi hj hij; revert hs h1 h2; crush))
-
-set_option maxHeartbeats 2000000 in
-theorem invUnreg_step {c σ a σ'} (h : step c σ a = some σ') (H : UnregOK σ a) (B : InvBound σ) (I : InvUnreg σ) : InvUnreg σ' := by
-  cases a with
-  | sAdd k =>
-    step_inv h
-    intro i hi
-    simp [aget_aset] at hi ⊢
-    by_cases e1 : k = i
-    · subst e1; simp at hi
-    · simp [e1] at hi ⊢
-      split
-      · rename_i hs
-        have hin : i < σ.next := lt_next_of_spc B (by simp [hi])
-        have := H i hin (fun e => e1 e.symm) hs.symm
-        simp [hi] at this
-      · exact I i hi
-  | sUnregCheck k =>
-    step_inv h
-    all_goals (intro i hi)
-    all_goals (simp [aget_adel] at hi ⊢)
-    all_goals (by_cases e1 : k = i)
-    all_goals (try subst e1)
-    all_goals (simp_all)
-    all_goals (first | exact I i hi | (intro _; exact I i hi))
-  | sUnregAgain k =>
-    step_inv h
-    intro i hi
-    simp [aget_adel] at hi ⊢
-    by_cases e1 : k = i
-    · subst e1; simp at hi
-    · simp [e1] at hi ⊢; intro _; exact I i hi
-  | _ =>
-    step_inv h
-    all_goals (intro i hi)
-    all_goals (try simp at hi ⊢)
-    all_goals (first | exact I i hi | (have hI := I i; revert hi; crush))
 
 end S2S.Registry
